@@ -20,6 +20,7 @@ VALUES = [('red', ['red']), ('1px', ['1px']), ('10px 20px', ['10px', '20px']), (
           ('"a\\\n;b}"', ['"a\\\n;b}"']), ("'x\\\n{ y: z; }'", ["'x\\\n{ y: z; }'"]), ('"x\\";y" attr(t)', ['"x\\";y"', 'attr(t)']),
           ('variant($bg: darken($c, 5%), $border: $c)', ['variant($bg: darken($c, 5%), $border: $c)']), ('f(a(b), c: d; e)', ['f(a(b), c: d; e)']), ('m((1), x: { y })', ['m((1), x: { y })']),
           ('url( "smile:).png")', ['url( "smile:).png")']), ("URL( 'a(b' ) no-repeat", ["URL( 'a(b' )", 'no-repeat']),
+          ('"a\x0c;b}"', ['"a\x0c;b}"']), ("'x\x0c{ y: z; }'", ["'x\x0c{ y: z; }'"]),
           ("f(1 /* don't */)", ["f(1 /* don't */)"]), ('h(/* { */ 3)', ['h(/* { */ 3)']),
           ('"it\'s };"', ['"it\'s };"']), ("'say \"}\" {'", ["'say \"}\" {'"]), ('"a\'" \'b"{\'', ['"a\'"', '\'b"{\''])]
 
@@ -254,6 +255,12 @@ def run(case, prop):
     for pos in range(-1, len(s) + 2):
         try:
             m = match(s, pos); o = balanced_outward(s, pos); i = balanced_inward(s, pos)
+            # the lists belong to the caller: it may change them, and asking again gives the same answer
+            o_ = [tuple(x) for x in o]; i_ = [tuple(x) for x in i]
+            try: o.reverse(); o.append((0, 0)); i.clear()
+            except Exception: pass
+            o = balanced_outward(s, pos); i = balanced_inward(s, pos)
+            if [tuple(x) for x in o] != o_ or [tuple(x) for x in i] != i_: viol.append('repeat| balanced_outward / balanced_inward(%d) answer differently when asked again after the caller changed the first answer' % pos)
             out += ' | %s ; %s ; %s' % ('None' if m is None else '%s:%d:%d:%d:%d' % (m.type, m.start, m.end, m.body_start, m.body_end), ' '.join(sr(x) for x in o), ' '.join(sr(x) for x in i))
             if prop == 'C16': viol += oracle_C16(s, pos, m, o, i)
             elif prop == 'C10' and 0 <= pos <= len(s): viol += oracle_C10(case, pos, m, o, i)
